@@ -10,7 +10,7 @@ Lines (tab separated, after `seq`):
   lq.createPair app user base quote ext <outcome>
   lq.createPool app user pair ranged dx dy ammPs ext <outcome>
   lq.deposit app user pool dx dy ext <outcome>
-  lq.withdraw app user pool pc ext <outcome>
+  lq.withdraw app user pool pc poolCoinDenom <outcome>     (the denom check — THIS pool's pool coin, app AND pool id — is `poolCoinOk`)
   lq.order   app user pair typ buy offerDenom demandDenom msgOffer msgPrice amount lifespan <outcome>
   lq.mmOrder app user pair maxSell minSell sellAmt maxBuy minBuy buyAmt lifespan <outcome>
                  (the tick-fitted price, the ticks of a market-making order and the price / tick / denom validations are
@@ -18,7 +18,7 @@ Lines (tab separated, after `seq`):
   lq.cancel  app user pair id <outcome>
   lq.cancelAll app user pairs <outcome>
   lq.cancelMM app user pair <outcome>
-  lq.farm / liq.unfarm  app user pool amt ext <outcome>
+  lq.farm / liq.unfarm  app user pool amt poolCoinDenom <outcome>
   lq.depositAndFarm app user pool dx dy ax ay pc ext <outcome>
   lq.unfarmAndWithdraw app user pool amt x y ext <outcome>
   lq.bb      app
@@ -247,7 +247,9 @@ def pOp (f : List String) : Option (Op × String) :=
   | ["lq.createPool", a, u, p, r, dx, dy, ps, e, o] => do
     pure (.createPool (← pNat a) (← pNat u) (← pNat p) (← pBool r) (← pNat dx) (← pNat dy) (← pNat ps) (← pBool e), o)
   | ["lq.deposit", a, u, p, dx, dy, e, o] => do pure (.deposit (← pNat a) (← pNat u) (← pNat p) (← pNat dx) (← pNat dy) (← pBool e), o)
-  | ["lq.withdraw", a, u, p, pc, e, o] => do pure (.withdraw (← pNat a) (← pNat u) (← pNat p) (← pNat pc) (← pBool e), o)
+  | ["lq.withdraw", a, u, p, pc, d, o] => do
+    let a ← pNat a; let p ← pNat p
+    pure (.withdraw a (← pNat u) p (← pNat pc) (poolCoinOk a p (← pDenom d)), o)
   | ["lq.order", a, u, p, t, b, od, dd, mo, mp, am, l, o] => do
     pure (.order (← pNat a) (← pNat u) (← pNat p) (← pOType t) (← pBool b) (← pDenom od) (← pDenom dd) (← pNat mo) (← pNat mp)
             (← pNat am) (← pInt l), o)
@@ -256,12 +258,17 @@ def pOp (f : List String) : Option (Op × String) :=
   | ["lq.cancel", a, u, p, i, o] => do pure (.cancel (← pNat a) (← pNat u) (← pNat p) (← pNat i), o)
   | ["lq.cancelAll", a, u, ps, o] => do pure (.cancelAll (← pNat a) (← pNat u) (← parseNatList ps), o)
   | ["lq.cancelMM", a, u, p, o] => do pure (.cancelMM (← pNat a) (← pNat u) (← pNat p), o)
-  | ["lq.farm", a, u, p, n, e, o] => do pure (.farm (← pNat a) (← pNat u) (← pNat p) (← pNat n) (← pBool e), o)
-  | ["lq.unfarm", a, u, p, n, e, o] => do pure (.unfarm (← pNat a) (← pNat u) (← pNat p) (← pNat n) (← pBool e), o)
+  | ["lq.farm", a, u, p, n, d, o] => do
+    let a ← pNat a; let p ← pNat p
+    pure (.farm a (← pNat u) p (← pNat n) (poolCoinOk a p (← pDenom d)), o)
+  | ["lq.unfarm", a, u, p, n, d, o] => do
+    let a ← pNat a; let p ← pNat p
+    pure (.unfarm a (← pNat u) p (← pNat n) (poolCoinOk a p (← pDenom d)), o)
   | ["lq.depositAndFarm", a, u, p, dx, dy, ax, ay, pc, e, o] => do
     pure (.depositAndFarm (← pNat a) (← pNat u) (← pNat p) (← pNat dx) (← pNat dy) (← pNat ax) (← pNat ay) (← pNat pc) (← pBool e), o)
-  | ["lq.unfarmAndWithdraw", a, u, p, n, x, y, e, o] => do
-    pure (.unfarmAndWithdraw (← pNat a) (← pNat u) (← pNat p) (← pNat n) (← pNat x) (← pNat y) (← pBool e), o)
+  | ["lq.unfarmAndWithdraw", a, u, p, n, x, y, d, o] => do
+    let a ← pNat a; let p ← pNat p
+    pure (.unfarmAndWithdraw a (← pNat u) p (← pNat n) (← pNat x) (← pNat y) (poolCoinOk a p (← pDenom d)), o)
   | ["lq.bb", a] => do pure (.beginBlock (← pNat a), "ok")
   | ["lq.migrate", o] => some (.migrate, o)
   | ["lq.eb", a, ms, ds, ws, o] => do pure (.endBlock (← pNat a) (← pMatches ms) (← pDepIns ds) (← pWdrIns ws), o)
